@@ -32,7 +32,7 @@ TEXT = {'text': 'Kernel-checked theorems over abstract tagged hashes and an abst
  'design_ref': 'DESIGN.md section 6, C15; notes/C15.md',
  'note': 'Trusted: Coq kernel; hand-written Gallina model of taproot.rs/schnorr.rs (builder loop, NodeInfo::combine, script map, control block codec, '
          'verify_taproot_commitment, with_huffman_tree as multiset extract-max); secp256k1 as an oracle with stated premises; translator for constants and tag '
-         'strings; extraction + OCaml driver audited by in-kernel vm_compute; Rust harness. Findings re-derived: F9 (leaves held in reverse DFS order, proved; '
-         'does not affect any C15 observable), F16 (finalize on a serde-only state panics; C10).',
+         'strings; extraction + OCaml driver audited by in-kernel vm_compute; Rust harness. Findings re-derived on the unrepaired tree and repaired since: F9 (leaves were held in reverse DFS order; fix aee9a45, the model and '
+         'C15_builder_sound now state insertion order, harness key F9-leaf-order), F16 (finalize panicked on a serde-only state; fix c723f02, key F16-finalize-panic).',
  'technique': 'Coq proof (restart lemma for the eager-combine loop, collision extraction, exchange-free Huffman depth-order invariant) + per-run '
               'model/implementation correspondence'}
